@@ -990,7 +990,8 @@ impl CompositionGraph {
     ///
     /// This method panics if the provided node id is invalid.
     pub fn unexport(&mut self, node: NodeId) -> Result<(), UnexportError> {
-        let node = &mut self.graph[node.0];
+        let index = node.0;
+        let node = &mut self.graph[index];
         if let NodeKind::Definition = node.kind {
             return Err(UnexportError::MustExportDefinition);
         }
@@ -999,6 +1000,8 @@ impl CompositionGraph {
             log::debug!("unmarked node for export as `{name}`");
             let removed = self.exports.swap_remove(&name);
             assert!(removed.is_some());
+            // The node may have been exported under more than one name
+            self.exports.retain(|_, n| *n != index);
         }
 
         Ok(())
@@ -1055,7 +1058,8 @@ impl CompositionGraph {
             "removing node {index} from the graph",
             index = node.0.index()
         );
-        let node = self.graph.remove_node(node.0).expect("invalid node id");
+        let index = node.0;
+        let node = self.graph.remove_node(index).expect("invalid node id");
 
         // Remove any import entry
         if let Some(name) = node.import_name() {
@@ -1069,6 +1073,8 @@ impl CompositionGraph {
             log::debug!("removing export of node as `{name}`");
             let removed = self.exports.swap_remove(name);
             assert!(removed.is_some());
+            // The node may have been exported under more than one name
+            self.exports.retain(|_, n| *n != index);
         }
 
         if let NodeKind::Definition = node.kind {
